@@ -88,13 +88,15 @@ pub fn value_array(v: Vec<Value>) -> (r: Value) { unimplemented!() }
 pub fn value_object(v: Vec<(KeyString, Value)>) -> (r: Value) { unimplemented!() }
 
 // ---- assignment ------------------------------------------------------------------------------
-pub struct Target { pub id: Ghost<int> }
+pub enum Target { Noop, Internal(Ident, OwnedValuePath), External(OwnedTargetPath) }
 impl Target {
+    /// identity of an assignment target in the ghost trace
+    pub uninterp spec fn tid(self) -> int;
     // contract of assignment::Target::insert: exactly one store/target write, never an error,
-    // never a panic. Discharged on the real function by Kani units k_target_insert_*.
+    // never a panic. Verified on the real function by the Verus unit v_target_ops (target_insert).
     #[verifier::external_body]
     pub fn insert(&self, value: Value, ctx: &mut Context)
-        ensures final(ctx).trace@ == old(ctx).trace@.push(Ev::Write(self.id@, value)),
+        ensures final(ctx).trace@ == old(ctx).trace@.push(Ev::Write(self.tid(), value)),
     { unimplemented!() }
 }
 pub enum Variant {
